@@ -216,10 +216,7 @@ class F:
     def xstmt(self, st: ast.AST) -> ast.AST:
         k = id(st)
         if k not in self._xs:
-            defs = M._DEFS_CACHE.get(id(self.node))
-            if defs is None:
-                M.expand(self.node, ast.Constant(value=0))
-                defs = M._DEFS_CACHE.get(id(self.node), {})
+            defs = M.cached_defs(self.node)
             self._xs[k] = ast.fix_missing_locations(M._Subst(defs, 6).visit(copy.deepcopy(st))) if defs else st
         return self._xs[k]
 
